@@ -222,3 +222,12 @@ Definition neterr_ok (temporary : bool) (k calls requests : nat) (body_ok : bool
     MaxElapsedTime still retries, twice in a row (each export: retry-able reply, then success). *)
 Definition aged_ok (attempts1 : nat) (err1 : N) (attempts2 : nat) (err2 : N) : bool :=
   Nat.eqb attempts1 2 && (err1 =? 0)%N && Nat.eqb attempts2 2 && (err2 =? 0)%N.
+
+(** A success is delivered whatever its partial_success says; the error handler hears about it exactly when
+    items were rejected or a message came along. *)
+Definition partial_ok (p : partial_info) (err handled : N) : bool :=
+  (err =? 0)%N &&
+  (handled =? match p with
+              | NoPartial => 0
+              | Partial n m => if (n =? 0) && negb m then 0 else 1
+              end)%N.
